@@ -445,10 +445,15 @@ class HierDictDocument(DictDocument):
                 # Wrappers are auto-generated objects that have exactly one
                 # child type.
                 key, = ti.keys()
-                if not issubclass(cls, Array):
+                is_array = issubclass(cls, Array)
+                if not is_array:
                     inst = getattr(inst, key, None)
                 cls, = ti.values()
                 ti = getattr(cls, '_type_info', {})
+                if is_array:
+                    # one level of nesting at a time: the items of an array of
+                    # arrays are sequences themselves.
+                    break
 
         # transform the results into a dict:
         if cls.Attributes.max_occurs > 1:
